@@ -26,7 +26,10 @@ def job_handler(res):
 
 def main(tier):
     chk = Check('C14', tier, '4/C14')
+    import c10
     jobs = [(job_handler, ())] + mainloop.jobs_for('C14', tier)
+    # what an append event does to the file (the summary the trace obligations rely on): every kind of append extends exactly its datasets by one record, whatever the time label
+    jobs += [(c10.job_append, c) for c in ((4, 1, 8, 2), (4, 2, 12, 2))]
     K = 2 if tier == 'quick' else 3
     chk.bounds = {'loop iterations per path': K, 'interrupt points': 'every evaluation of the loop test (the flag is a fresh, monotone boolean at each volatile read), i.e. before the first step, between any two steps, and after the last step; plus every other place where main reads the flag (explored with the flag set)',
                   'symbolic': 'laststep, outstep, renormalize, SavePhaseSpace, steps, presence of results file / wake map / dynamic RF / tracking'}
@@ -35,6 +38,7 @@ def main(tier):
                        'that all time-indexed datasets get one record per append is C10-G1; that each record equals the uninterrupted run\'s follows from the loop being deterministic and the prefix property of the explored path tree (same decisions, same events)',
                        'calls are events (callee + arguments); their effects on the file come from the C10 summaries']
     chk.stubs = ['every call in main that is not arithmetic: event returning a fresh value (const std:: helpers memoised on their arguments)', 'volatile read of Display::abort: fresh monotone boolean']
+    chk.replayer = c10.replayer(c10.h5_build())
     _rs = run_jobs(jobs, budget=1500 if tier == 'quick' else 6000); _rs.append(mainloop.loop_witness(_rs, 'C14')); chk.add(_rs)
     chk.finish()
 
